@@ -85,7 +85,36 @@ MISSED_FIRST.update({
  "C17-E": "C17 injected no I/O faults (C18 caught the change); C17 now also reads every chunked document with a failing first refill and reads on",
  "C17-F": "the CDATA -> text conversions (escape / partial_escape / minimal_escape) were not called; their unescape() must give the section's string",
 })
-# rounds two to five: change / needs are taken from the agent's NOTES.md
+MISSED_FIRST.update({
+ "C01-H": "C01 ran the borrowing reader only (C02 and C16 caught the change); the sampled inputs now also go through the buffering reader in lock-step with the model",
+ "C03-G": "skip calls were made only directly after a start tag; they are now also made after texts, end tags, comments ... for any element that is still open",
+ "C05-G": "attributes were always separated by one space; tabs, line breaks and spaces around '=' added",
+ "C06-G": "maps always reached the serializer through serialize_entry; added a map type that uses serialize_key + serialize_value (type Protocols)",
+ "C06-H": "u128 appeared as element content only; added u128 attributes and xs:list items above i128::MAX",
+ "C07-H": "all documents were UTF-8; added documents in windows-1251 / koi8-r with element and attribute names outside ASCII (the stall detector pins the hang)",
+ "C09-H": "sinks never failed; added a sink that refuses one write call: the events written afterwards must still arrive as their own bytes",
+ "C10-G": "the custom resolver answered for five names only; added a resolver that answers for every name (character references stay the library's business)",
+ "C10-H": "no long entity names; added names of every byte length up to 80 in ASCII, 2-, 3- and 4-byte characters",
+ "C11-G": "with_checks was only called before the iteration; it is now also called (with the same value) between items",
+ "C11-H": "attribute iteration was never run on a renamed start tag (C09 caught the change); added the relation 'set_name does not change the attributes'",
+ "C12-G": "the enclosing element was never skipped from inside a child (C05 and C07 caught the change); added, with names that are suffixes of each other",
+ "C13-G": "no value reached the serializer through collect_str; added the Shown type in attribute, element, text, list and $text-variant positions",
+ "C13-H": "the limited sink reported 'full' with an error only; it now also does so by accepting 0 bytes, like &mut [u8]",
+ "C15-H": "the harness was always built with quick-xml's overlapped-lists feature, so the other variant of the deserializer's skip code was not even compiled; added the novl layer",
+ "C17-G": "for inputs with a byte-order mark the first piece was at least 4 bytes; now also exactly the mark, the mark alone, the mark plus one byte",
+ "C17-H": "C17 did not go through the deserializer; added documents with Cyrillic names in four legacy encodings compared with their UTF-8 original",
+})
+# a change that breaks a neighbouring property's statement in a call the property's own workload does not make
+NOT_OWN = {
+ "C01-G": "the change is in read_to_end (its failure path does not restore trim_text_start); C01's statement is about read_event. Detected by C12 and C16, whose statements it breaks",
+ "C02-G": "the change only shows when the source returns Interrupted; C02's statement has no faults. Detected by C18, whose statement it breaks",
+ "C08-G": "the change is in the async reader's stream(); C08's statement is about the borrowing reader. Detected by C02 and C03",
+ "C08-H": "the change is in read_to_end's span; C08 does not call it. Detected by C12, whose statement it breaks",
+ "C16-H": "the change is in read_to_end called for an ancestor from inside an expanded empty child; C16's probe calls read_to_end for the element just opened. Detected by C12",
+ "C20-G": "NOT DETECTED by any check: needs documents that use namespace prefixes, which are not interleavings of a serialization (C20's domain)",
+ "C20-H": "NOT DETECTED by any check: needs an xsi:nil element, which the serializer never writes, so no interleaving of a serialization contains one (C20's domain)",
+}
+# rounds two to six: change / needs are taken from the agent's NOTES.md
 def from_notes(d):
     t = open(d + '/NOTES.md').read()
     title = t.split('\n', 1)[0].lstrip('# ').strip()
@@ -94,19 +123,19 @@ def from_notes(d):
     needs = re.sub(r'\s+', ' ', m.group(1)).strip()[:600] if m else ''
     return title, needs
 for d in sorted(os.listdir('/verif/seeded')):
-    if re.fullmatch(r'C\d\d-[C-F]', d):
+    if re.fullmatch(r'C\d\d-[C-H]', d):
         S[d] = from_notes('/verif/seeded/' + d)
 res = {}
 if os.path.exists('/verif/seeded/RESULTS.txt'):
     for l in open('/verif/seeded/RESULTS.txt'):
-        m = re.match(r'(C\d\d-[A-F])/patch.diff (C\d\d) exit=(\d+)(.*)', l)
+        m = re.match(r'(C\d\d-[A-H])/patch.diff (C\d\d) exit=(\d+)(.*)', l)
         if m:
             res.setdefault(m.group(1), []).append({"check": m.group(2), "exit": int(m.group(3)), "first_detail": m.group(4).strip()[:240]})
 for k, (change, needs) in S.items():
     d = '/verif/seeded/' + k
     conf = open(d + '/CONFIRM.txt').read().strip().split('\n') if os.path.exists(d + '/CONFIRM.txt') else []
     meta = {
-        "property": k[:3], "variant": k[4:], "round": (5 if k[:3] in ROUND3 else 4) if k[4:] in "EF" else (3 if k[:3] in ROUND3 else 2) if k[4:] in "CD" else 1, "written_by": "fresh sub-agent given only the property text and a scratch worktree (nothing from /verif)",
+        "property": k[:3], "variant": k[4:], "round": 6 if k[4:] in "GH" else (5 if k[:3] in ROUND3 else 4) if k[4:] in "EF" else (3 if k[:3] in ROUND3 else 2) if k[4:] in "CD" else 1, "written_by": "fresh sub-agent given only the property text and a scratch worktree (nothing from /verif)",
         "change": change, "needs_to_manifest": needs,
         "confirmed_by_me": {"how": "tools/confirm_seed.sh in the scratch worktree: patch applies; default-feature suite passes with it (all-features too where ALLFEAT=1); demo fails with it; demo passes without it", "log": conf},
         "checks_run_against_it": res.get(k, []),
@@ -114,6 +143,10 @@ for k, (change, needs) in S.items():
     }
     if os.path.exists(d + "/patch_against_F1_fix.diff") or os.path.exists(d + "/patch_against_4312626.diff"):
         meta["ported"] = "patch.diff is the same change ported to the tree after fix 02ce051 (F9) and re-confirmed there; patch_against_F1_fix.diff is the agent's original"
+    own = [r for r in res.get(k, []) if r["check"] == k[:3]]
+    meta["detected_by_own_property"] = any(r["exit"] == 1 for r in own)
+    if k in NOT_OWN:
+        meta["not_detected_by_own_property"] = NOT_OWN[k]
     if k in MISSED_FIRST:
         meta["missed_at_first"] = MISSED_FIRST[k]
     json.dump(meta, open(d + '/meta.json', 'w'), indent=1)
